@@ -81,7 +81,10 @@ zst_implementor!(M9, 9, 4, M9S, M9P);    // zero-sized, its cast moves the addre
 unsafe impl CastFrom<M8> for dyn Obj { fn cast(t: *mut M8) -> *mut Self { t } }
 unsafe impl CastFrom<M9> for dyn Obj { fn cast(t: *mut M9) -> *mut Self { t.cast::<u8>().wrapping_add(64).cast::<M9>() } }
 
-pub const NTY: u64 = 10;
+implementor!(M10, 10, [u64; 8], [10; 8]);   // its cast moves the address by 16 bytes: wrong, but still INSIDE the object
+unsafe impl CastFrom<M10> for dyn Obj { fn cast(t: *mut M10) -> *mut Self { t.cast::<u8>().wrapping_add(16).cast::<M10>() } }
+
+pub const NTY: u64 = 11;
 pub const BAD: u64 = 6;
 
 macro_rules! with_m {
@@ -90,7 +93,8 @@ macro_rules! with_m {
             0 => { type $T = M0; $body } 1 => { type $T = M1; $body } 2 => { type $T = M2; $body }
             3 => { type $T = M3; $body } 4 => { type $T = M4; $body } 5 => { type $T = M5; $body }
             6 => { type $T = M6; $body } 7 => { type $T = M7; $body } 8 => { type $T = M8; $body }
-            _ => { type $T = M9; $body }
+            9 => { type $T = M9; $body }
+            _ => { type $T = M10; $body }
         }
     };
 }
